@@ -193,9 +193,12 @@ def run_oracle(ops, tag="o", timeout=1800):
     if not ops:
         return []
     p = _write_ops(ops, tag + "-impl")
-    r = run([ORACLE, p], timeout=timeout)
-    lines = r.stdout.decode(errors="replace").splitlines()
+    outp = p + ".out"
+    r = run([ORACLE, p, outp], timeout=timeout)
+    lines = open(outp, errors="replace").read().splitlines() if os.path.exists(outp) else []
     os.unlink(p)
+    if os.path.exists(outp):
+        os.unlink(outp)
     res = []
     for l in lines:
         try:
